@@ -63,6 +63,19 @@ func (r *Result) violation(f Finding) {
 	}
 }
 
+// saturated says that a property already has so many violations that looking for more only
+// costs time: drivers skip the remaining cases.
+func (r *Result) saturated(props ...string) bool {
+	r.mu.Lock()
+	defer r.mu.Unlock()
+	for _, p := range props {
+		if r.ViolCount[p] >= 200 {
+			return true
+		}
+	}
+	return false
+}
+
 func (r *Result) known(f Finding) {
 	r.mu.Lock()
 	defer r.mu.Unlock()
